@@ -12,6 +12,7 @@ import (
 	"path/filepath"
 	"sort"
 	"strings"
+	"sync"
 	"testing"
 	"time"
 )
@@ -351,6 +352,105 @@ func TestVerifScenario_C19_RenameTwice(t *testing.T) {
 	for _, want := range []string{"two/f1", "two/dir/f2", "two/dir/deep/f3", "subx/f4"} {
 		if !vsHasCreate(evs, filepath.Join(tmp, want)) {
 			t.Errorf("no Create for %s under its true current path; events: %v", want, evs)
+		}
+	}
+}
+
+// ---- regression scenario for C07/C04 (demonstration of a seeded change: the existence check and the removal of
+// Remove in two critical sections); uses the public API and the Watcher's mutex only
+// A few goroutines call Remove() for the same watched path at the same time:
+// exactly one of them may succeed, the other one must get ErrNonExistentWatch.
+//
+// The calls are started together from a barrier and the whole thing is repeated
+// a few hundred times; in most of the trials the watcher's lock is held by the
+// test while the calls are started, so that they enter Remove() back to back
+// once the lock is released.
+func TestVerifScenario_C07_ConcurrentRemove(t *testing.T) {
+	enable := enableRecurse
+	enableRecurse = false // Released configuration.
+	defer func() { enableRecurse = enable }()
+
+	tmp := t.TempDir()
+
+	w, err := NewWatcher()
+	if err != nil {
+		t.Fatal(err)
+	}
+	defer w.Close()
+	go func() {
+		for {
+			select {
+			case _, ok := <-w.Events:
+				if !ok {
+					return
+				}
+			case _, ok := <-w.Errors:
+				if !ok {
+					return
+				}
+			}
+		}
+	}()
+	in := w.b.(*inotify)
+
+	const callers = 2
+	for trial := 0; trial < 300; trial++ {
+		if err := w.Add(tmp); err != nil {
+			t.Fatal(err)
+		}
+
+		hold := trial%3 != 0
+		if hold {
+			in.mu.Lock()
+		}
+
+		var (
+			wg    sync.WaitGroup
+			start = make(chan struct{})
+			errs  [callers]error
+		)
+		for i := 0; i < callers; i++ {
+			wg.Add(1)
+			go func(i int) {
+				defer wg.Done()
+				<-start
+				errs[i] = w.Remove(tmp)
+			}(i)
+		}
+		close(start)
+		if hold {
+			// Both callers are now queued on the lock. Release it and take it
+			// right back, before the first waiter has woken up: that waiter
+			// has then been waiting for more than 1ms and failed to get the
+			// lock, which puts the sync.Mutex in "starvation mode", where the
+			// lock is handed from waiter to waiter in strict FIFO order
+			// instead of whoever happens to be running grabbing it. So the
+			// two Remove() calls alternate their critical sections.
+			time.Sleep(3 * time.Millisecond)
+			in.mu.Unlock()
+			in.mu.Lock()
+			time.Sleep(3 * time.Millisecond)
+			in.mu.Unlock()
+		}
+		wg.Wait()
+
+		var okay, nonexist int
+		for _, err := range errs {
+			switch {
+			case err == nil:
+				okay++
+			case errors.Is(err, ErrNonExistentWatch):
+				nonexist++
+			default:
+				t.Fatalf("trial %d: unexpected error: %v", trial, err)
+			}
+		}
+		if okay != 1 || nonexist != callers-1 {
+			t.Fatalf("trial %d (lock held=%t): %d Remove() calls succeeded and %d returned ErrNonExistentWatch; want 1 and %d\nerrors: %v",
+				trial, hold, okay, nonexist, callers-1, errs)
+		}
+		if l := w.WatchList(); len(l) != 0 {
+			t.Fatalf("trial %d: WatchList() after Remove: %v", trial, l)
 		}
 	}
 }
